@@ -218,7 +218,7 @@ def translate(repo):
                 continue                  # membership tests only: order never observed
             seen.add((cls, name))
             own = {os.path.basename(f).rsplit('.', 1)[0]}
-            live = False
+            live = not cls                # a local variable or a global: used where it stands
             if cls:
                 for g, t in allsrc.items():
                     if os.path.basename(g).rsplit('.', 1)[0] in own:
